@@ -11,6 +11,8 @@ use std::panic::{catch_unwind, AssertUnwindSafe};
 mod common;
 mod geom;
 mod plan;
+mod proto;
+mod refenc;
 
 pub const PANIC: u128 = 340282366920938463463374607431768211455; // 2^128-1
 
@@ -22,6 +24,10 @@ fn run_case(family: &str, args: &[u128]) -> Vec<u128> {
         "offsets" => geom::offsets(args),
         "plan" | "planspec" => plan::plan(args),
         "ranges" => plan::ranges(args),
+        "outboard" => proto::outboard(args),
+        "encode" => proto::encode(args),
+        "decode" => proto::decode(args),
+        "validate" => proto::validate(args),
         _ => panic!("unknown family {family}"),
     }
 }
